@@ -28,7 +28,7 @@ def varBytes (b : Bytes) : Bytes := varint b.length ++ b
 structure OutPoint where
   hash : Bytes          -- 32 bytes (wf)
   index : UInt32
-  deriving DecidableEq, Repr
+  deriving DecidableEq, Repr, Hashable
 
 structure TxIn where
   prev : OutPoint
